@@ -36,6 +36,7 @@ K_H5VIA = "hdf5-path-through-link-not-followed"
 K_H5PATH = "hdf5-link-search-path-ignored"
 K_CFGADD = "cg-configure-add-path-replaces"
 K_H5LEAK = "hdf5-linked-file-stays-open-after-close"
+K_H5CREATE = "hdf5-create-under-link-node-accepted"
 
 
 # ============================================================================ mirror of the world (generator + oracle)
@@ -81,6 +82,18 @@ class World:
         self.env = {"ADF_LINK_PATH": b"", "HDF5_LINK_PATH": b"", "CGNS_LINK_PATH": b""}
         self.plist = []
         self.decoys = {}                                   # literal -> type name ("adf" / "hdf5" / "junk")
+
+    def path_op(self, op, arg):
+        """cg_set_path / cg_add_path / cg_configure(CG_CONFIG_SET_PATH | CG_CONFIG_ADD_PATH) as documented: `set` starts a
+        new list (empty for NULL or ""), `add` appends and refuses NULL / ""; arg: bytes or None (NULL).  -> expected status"""
+        empty = arg is None or arg == b""
+        if op in ("setpath", "cfgset"):
+            self.plist = [] if empty else [arg]
+            return "ok"
+        if empty:
+            return "err other"
+        self.plist.append(arg)
+        return "ok"
 
     def by_path(self, lit):
         for f in self.files.values():
@@ -305,12 +318,20 @@ class Gen:
             v = plist(2) if rng.random() < 0.5 else b""
             self.w.env[name] = v
             self.emit("setenv %s %s" % (name, hx(v)), "ok")
-        self.w.plist = []
-        self.emit("pathdel", "ok")
-        for _ in range(rng.choice([0, 0, 1, 2])):
-            v = plist(2) or self.P("p2")
-            self.w.plist.append(v)
-            self.emit("pathadd %s" % hx(v), "ok")
+        # a HISTORY of list settings, not one setting: what is left is what the last set + the adds after it say
+        if rng.random() < 0.3:
+            self.w.plist = []
+            self.emit("pathdel", "ok")
+        for _ in range(rng.choice([0, 1, 2, 3, 4])):
+            op = rng.choice(["setpath", "setpath", "addpath", "addpath", "cfgset", "cfgadd", "pathadd"])
+            r = rng.random()
+            arg = None if r < 0.12 else b"" if r < 0.25 else (plist(2) or self.P("p2"))
+            if op == "pathadd":
+                if not arg:
+                    continue
+                self.w.plist.append(arg); self.emit("pathadd %s" % hx(arg), "ok")
+            else:
+                self.emit("%s %s" % (op, "NULL" if arg is None else hx(arg)), self.w.path_op(op, arg))
 
     # ---- building blocks
     def op_create(self, f, p=None):
@@ -454,6 +475,13 @@ class Gen:
         if rng.random() < 0.3:
             n = f.nodes[u]
             self.emit("lnk %d %d" % (f.fid, u), "ok L:1:%s:%s" % (hx(n["link"][0]), hx(n["link"][1])), dict(kind="lnk"))
+        if f.mode in ("w", "m") and rng.random() < 0.25:
+            # using a DANGLING link as the parent of a new node must be refused (a resolving one is not tried: ADF puts the
+            # child into the target, outside this check's scope)
+            exp, _, tgt = ideal_rd(self.w, f.fid, u, b"")
+            if tgt is None:
+                self.emit("tryc %d %d %d %s" % (f.fid, u, 3900 + rng.randint(0, 90), hx(rand_name(rng, set(), True))), ("mustfail",),
+                          dict(kind="create-under-dangling"))
 
     def targets_of_links(self):
         """nodes (in open, writable files) that some link currently resolves to or passes through"""
@@ -703,6 +731,9 @@ def prepare_dirs(root):
         os.makedirs(os.path.join(root, d), exist_ok=True)
 
 
+MODEL_FLAGS = []          # switches of the extracted model, set when a regression witness shows the library before a repair
+
+
 def run_case(exe, be, lines, root, timeout=120):
     """-> dict(lines, outcome, stack, model)"""
     prepare_dirs(root)
@@ -712,7 +743,7 @@ def run_case(exe, be, lines, root, timeout=120):
         os.environ.pop(k, None)
     il, outcome, stack = vlib.run_impl(exe, text, timeout=timeout, cwd=os.path.join(root, "cwd"), want_stack=True)
     il = [BADID.sub("", l) for l in il]          # ADFH_CHECK_HID prints a diagnostic to stdout before failing
-    ml = vlib.run_model("c08", text, args=[be])
+    ml = vlib.run_model("c08", text, args=[be] + ([",".join(MODEL_FLAGS)] if MODEL_FLAGS else []))
     return dict(lines=il, outcome=outcome, stack=stack, model=ml)
 
 
@@ -763,6 +794,11 @@ def judge(be, g_lines, g_expect, g_meta, res):
                 continue
             fails.append((i, dict(op=nodedb.short(g_lines[i], 200), expected="clean link error (%s)" % exp[1], got=nodedb.short(got, 300),
                                   oracle="ideal resolution"), classify(be, meta, exp, got, mod)))
+        elif exp[0] == "mustfail":
+            if not got.startswith("err"):
+                key = (meta.get("hint") or {}).get(be) if (mod is not None and mod == got) else None
+                fails.append((i, dict(op=nodedb.short(g_lines[i], 200), expected="refused (the link it goes through has no target)", got=got,
+                                      oracle="a link whose target is missing fails cleanly when used"), key))
         elif exp[0] == "same":
             if got != il[exp[1]]:
                 fails.append((i, dict(op=nodedb.short(g_lines[i], 200), before=nodedb.short(il[exp[1]], 300), after=nodedb.short(got, 300),
@@ -877,6 +913,49 @@ def scenario(name, rng, be, root):
         if Ls is not None:
             g.x_read(A, Ls)
         g.x_close(A)
+    elif name == "underlink":
+        # a dangling link used as a parent: refused, and nothing anywhere changes
+        g.x_open(A, "w"); g.x_create(A, 0, b"T", b"LabelT")
+        Ld = g.x_link(A, 0, b"Ld", b"", b"/Nope"); Lf = g.x_link(A, 0, b"Lf", b"nofile.cgns", b"/T"); Lc = g.x_link(A, 0, b"Lc", b"", b"/Lc")
+        before = sub_line(A, 0, be)
+        for L_, nm in ((Ld, b"c1"), (Lf, b"c2"), (Lc, b"c3")):
+            g.emit("tryc %d %d %d %s" % (A.fid, L_, 3900, hx(nm)), ("mustfail",), dict(kind="create-under-dangling"))
+            g.x_read(A, L_)
+        g.emit("sub %d 0" % A.fid, before, dict(kind="dump")); g.x_close(A)
+        g.x_open(A, "r"); g.emit("sub %d 0" % A.fid, before, dict(kind="dump")); g.x_close(A)
+    elif name in ("pathhist", "pathhist2"):
+        # search-path HISTORIES: the same relative name in three directories with different content, absent from the
+        # default places; after every step the linking file is opened afresh and the link says which file it reached
+        tf = {}
+        for loc in ("p1", "p2", "p3"):
+            f = g.add_file(loc, b"t.cgns"); tf[loc] = f
+            g.x_open(f, "w"); g.x_create(f, 0, b"X", ("I am the one in " + loc).encode(), loc.encode()); g.x_close(f)
+        g.x_open(A, "w"); L = g.x_link(A, 0, b"L", b"t.cgns", b"/X"); g.x_close(A)
+        P1, P2, P3 = g.P("p1"), g.P("p2"), g.P("p3")
+        def look():
+            g.x_open(A, "r"); g.x_read(A, L, hint={"hdf5": K_H5PATH}); g.x_close(A)
+        def setter(op, arg):
+            g.emit("%s %s" % (op, "NULL" if arg is None else hx(arg)), g.w.path_op(op, arg)); look()
+        def env(nm, val):
+            g.emit("setenv %s %s" % (nm, hx(val)), "ok"); g.w.env[nm] = val; look()
+        if name == "pathhist":
+            look()
+            for op, arg in (("setpath", P1), ("setpath", b""), ("setpath", P2), ("setpath", None), ("setpath", P1), ("addpath", P2),
+                            ("setpath", b""), ("addpath", P2), ("addpath", b""), ("addpath", None), ("cfgset", P3), ("cfgset", None),
+                            ("cfgadd", P1), ("cfgadd", P2), ("cfgset", b""), ("cfgadd", None), ("cfgadd", P3), ("setpath", P2 + b":" + P1),
+                            ("cfgset", b"")):
+                setter(op, arg)
+            env("CGNS_LINK_PATH", P2); setter("addpath", P3); env("CGNS_LINK_PATH", b""); env(ENVNAME[be], P1)
+            setter("setpath", b""); env(ENVNAME[be], b""); setter("cfgadd", P2); setter("setpath", None)
+        else:
+            for _ in range(14):
+                r = rng.random()
+                if r < 0.2:
+                    env(rng.choice(["CGNS_LINK_PATH", ENVNAME[be]]), rng.choice([b"", b"", P1, P2, P3 + b":" + P1]))
+                else:
+                    a = rng.random()
+                    setter(rng.choice(["setpath", "addpath", "cfgset", "cfgadd"]),
+                           None if a < 0.15 else b"" if a < 0.3 else rng.choice([P1, P2, P3, g.P("nodir") + b":" + P2]))
     elif name == "errbudget":
         # failures must not use anything up: many failing resolutions (dangling, cyclic, through their own path), then good ones
         g.x_open(A, "w"); t = g.x_create(A, 0, b"T", b"LabelT", b"abc"); g.x_create(A, t, b"K", b"LabelK")
@@ -966,7 +1045,7 @@ def scenario(name, rng, be, root):
     return g
 
 
-SCENARIOS = ["stale", "nest", "nest2", "mutual", "close9", "userheld", "errbudget", "chain5", "chain100", "chain101", "cycle", "via", "dangling",
+SCENARIOS = ["stale", "nest", "nest2", "mutual", "close9", "userheld", "errbudget", "underlink", "pathhist", "pathhist2", "chain5", "chain100", "chain101", "cycle", "via", "dangling",
              "retarget", "search", "sep"]
 
 
@@ -1119,6 +1198,66 @@ def mll_cases(rng, be, root):
     return cases
 
 
+def mll_path_histories(rng, be, root):
+    """search-path HISTORIES through the mid-level API and real cg_open: b.cgns exists in p1, p2, p3 with different
+    coordinates and nowhere else; after every setting the linking file is opened afresh and the coordinates read through
+    the link tell which file was reached (expected: the documented semantics applied to the history, World.path_op)"""
+    cases = []
+    for variant in ("fixed", "random"):
+        c = MllCase("path-history-" + variant, be, root)
+        seeds = {"p1": rng.randint(1, 10 ** 6), "p2": rng.randint(1, 10 ** 6), "p3": rng.randint(1, 10 ** 6)}
+        P = {k: c.P(k) for k in seeds}
+        w = World(be)
+        for k, sd in seeds.items():
+            c.add("mkfile %s 1 %d 1 1" % (hx(P[k] + b"/b.cgns"), sd))
+            f = FileM(len(w.files) + 1, P[k] + b"/b.cgns", be); f.exists = True; f.seed = sd; w.files[f.fid] = f
+        apath = c.P("m/a.cgns")
+        for nme in ("ADF_LINK_PATH", "HDF5_LINK_PATH", "CGNS_LINK_PATH"):
+            c.add("setenv %s -" % nme)
+        c.add("setpath -")
+        c.add("mkfile %s 1 7 0 0" % hx(apath))
+        c.add("open 0 %s m" % hx(apath))
+        c.add("linkw 0 %s %s %s %s" % (hx(b"/Base/Zone1"), hx(b"GridCoordinates"), hx(b"b.cgns"), hx(b"/Base/Zone1/GridCoordinates")))
+        c.add("close 0")
+        h5p = {"hdf5": K_H5PATH}
+
+        def look():
+            hit = None
+            for lit, rule in documented_candidates(w, apath, b"b.cgns"):
+                if w.exists_as(lit, be):
+                    hit = w.by_path(lit); break
+            c.add("open 0 %s r" % hx(apath), ("clean",))
+            if hit is None:
+                c.add("coords 0 1 1", ("nodata",))
+            else:
+                c.add("coords 0 1 1", mll_coords_line(hit.seed, 1), h5p)
+            c.add("close 0", ("clean",))
+
+        def setter(op, arg):
+            c.add("%s %s" % (op, "NULL" if arg is None else hx(arg)), "ok" if w.path_op(op, arg) == "ok" else "err cg"); look()
+
+        def env(nm, val):
+            c.add("setenv %s %s" % (nm, hx(val))); w.env[nm] = val; look()
+        if variant == "fixed":
+            look()
+            for op, arg in (("setpath", P["p1"]), ("setpath", b""), ("setpath", P["p2"]), ("cfgset", None), ("setpath", P["p1"]),
+                            ("addpath", P["p2"]), ("setpath", None), ("addpath", P["p2"]), ("cfgset", P["p3"]), ("cfgset", b""),
+                            ("cfgadd", P["p1"]), ("cfgadd", b""), ("setpath", b""), ("cfgadd", P["p3"])):
+                setter(op, arg)
+            env("CGNS_LINK_PATH", P["p2"]); setter("setpath", b""); env("CGNS_LINK_PATH", b""); env(ENVNAME[be], P["p1"])
+            setter("addpath", P["p3"]); env(ENVNAME[be], b""); setter("setpath", None)
+        else:
+            for _ in range(12):
+                if rng.random() < 0.2:
+                    env(rng.choice(["CGNS_LINK_PATH", ENVNAME[be]]), rng.choice([b"", P["p1"], P["p2"], P["p3"] + b":" + P["p1"]]))
+                else:
+                    a = rng.random()
+                    setter(rng.choice(["setpath", "addpath", "cfgset", "cfgadd"]),
+                           None if a < 0.15 else b"" if a < 0.3 else rng.choice([P["p1"], P["p2"], P["p3"], c.P("nodir") + b":" + P["p2"]]))
+        cases.append(c)
+    return cases
+
+
 def run_mll(exe, case):
     prepare_dirs(case.root)
     for k in ("ADF_LINK_PATH", "HDF5_LINK_PATH", "CGNS_LINK_PATH", "HDF5_EXT_PREFIX"):
@@ -1134,6 +1273,10 @@ def run_mll(exe, case):
         if isinstance(exp, tuple):
             if not (got.startswith("ok") or got.startswith("err")):
                 fails.append((i, dict(op=nodedb.short(case.lines[i], 200), got=got), None))
+            elif exp[0] == "nodata" and got.startswith("ok C:") and not got.startswith("ok C:0"):
+                fails.append((i, dict(op=nodedb.short(case.lines[i], 200), expected="no file on the search path: an error or no coordinates",
+                                      got=nodedb.short(got, 120), oracle="the documented search order over the current path list"),
+                              (case.hint[i] or {}).get(case.be)))
             continue
         if got != exp:
             key = (case.hint[i] or {}).get(case.be)
@@ -1179,6 +1322,10 @@ def expect_from_script(be, lines, impl_lines):
                 w.plist.append(B(t[1])); e = "ok"
             elif op == "pathdel":
                 w.plist = []; e = "ok"
+            elif op in ("setpath", "addpath", "cfgset", "cfgadd"):
+                e = w.path_op(op, None if t[1] == "NULL" else B(t[1]))
+            elif op == "tryc":
+                e = ("mustfail",)
             elif op == "junk":
                 w.decoys[B(t[1])] = "junk"; e = "ok"
             elif op == "unlinkf":
@@ -1256,7 +1403,7 @@ def expect_from_script(be, lines, impl_lines):
 
 # ============================================================================ corpus/C08: witnesses of the repaired defects
 CORPUS = os.path.join(vlib.ROOT, "corpus", "C08")
-STR_POS = {"cgio": {"file": [2], "create": [4], "rename": [4], "link": [4, 5, 6], "label": [3], "rd": [3], "pathadd": [1], "junk": [1],
+STR_POS = {"cgio": {"file": [2], "create": [4], "rename": [4], "link": [4, 5, 6], "label": [3], "rd": [3], "pathadd": [1], "junk": [1], "tryc": [4],
                     "unlinkf": [1], "setenv": [2], "chdir": [1]},
            "mll": {"setenv": [2], "setpath": [1], "addpath": [1], "cfgset": [1], "cfgadd": [1], "mkfile": [1], "unlinkf": [1], "open": [2],
                    "linkw": [2, 3, 4, 5], "islink": [2], "linkr": [2], "delnode": [2, 3]}}
@@ -1284,18 +1431,25 @@ def _encoded(line, kind, root):
 
 CORPUS_CGIO = [(K_STALE, "stale", "adf"), (K_NEST, "nest", "adf"), (K_NEST, "nest2", "adf"), (K_CLOSE, "mutual", "adf"),
                (K_CLOSE9, "close9", "adf"), (K_H5CHAIN, "chain5", "hdf5"), (K_H5CHAIN, "cycle", "hdf5"), (K_H5CHAIN, "mutual", "hdf5"),
-               (K_H5CHAIN, "close9", "hdf5")]
+               (K_H5CHAIN, "close9", "hdf5"), (K_H5CREATE, "underlink", "hdf5")]
+# a repaired defect whose witness failing again switches the model to the old transcription of that piece, so that the
+# model keeps describing the library under test (the regression itself is reported under the original key)
+CORPUS_SWITCH = {K_H5CREATE: "h5create-old"}
 
 
-def write_corpus(root="/verif/.work/C08/w"):
+def write_corpus(root="/verif/.work/C08/w", only=None):
     """development aid (run by hand when a defect is repaired): freeze the directed witnesses into corpus/C08/*.json"""
     import random
     os.makedirs(CORPUS, exist_ok=True)
     for key, name, be in CORPUS_CGIO:
+        if only is not None and key != only:
+            continue
         g = scenario(name, random.Random(1), be, root)
         json.dump({"key": key, "kind": "cgio", "backend": be, "name": name,
                    "script": [_readable(l, "cgio", root) for l in g.lines]},
                   open(os.path.join(CORPUS, "%s.%s.%s.json" % (key, name, be)), "w"), indent=1)
+    if only is not None:
+        return
     for c in mll_cases(random.Random(7), "adf", root):
         if c.name == "cg_configure-add-keeps-earlier":
             json.dump({"key": K_CFGADD, "kind": "mll", "backend": "adf", "name": c.name,
@@ -1332,6 +1486,10 @@ def run_corpus(R):
                 i, desc, _ = fails[0]
                 R.report(c["key"], dict(kind="cgio", backend=be, case="corpus:" + fn, script=lines[: i + 1], failure=desc, line=i,
                                         note="regression of a repaired defect"))
+                sw = CORPUS_SWITCH.get(c["key"])
+                if sw and sw not in MODEL_FLAGS:
+                    MODEL_FLAGS.append(sw)
+                    R.dist.setdefault("model_variant_switches", []).append(sw)
             elif div:
                 R.div.append((be, None, "corpus:" + fn, div))
         else:
@@ -1482,6 +1640,7 @@ def run(ck):
                       "values written into the target, for every way of setting the search path. non-trivial = a cross-file link resolved, a link "
                       "deleted or re-targeted with the before/after dump, a target renamed or moved, and at least two closes; distinct by SHA1")
     R = Runner(ck, exe, mexe)
+    del MODEL_FLAGS[:]
     # ---- 0. regression corpus: the witnesses of the repaired defects
     R.dist["corpus_cases"] = run_corpus(R)
     # ---- 1. directed scenarios
@@ -1506,17 +1665,19 @@ def run(ck):
             break
     # ---- 3. mid-level tier
     for be in ("adf", "hdf5"):
-        for c in mll_cases(ck.rng, be, R.root):
+        for c in mll_cases(ck.rng, be, R.root) + mll_path_histories(ck.rng, be, R.root):
             fails, il, outcome = run_mll(mexe, c)
             ck.cov["traces_validated_against_impl"] += 1
             R.dist["mll_cases"] += 1
             ck.case("mll:%s:%s" % (c.name, be))
+            unkeyed = 0
             for i, desc, key in fails:
                 rep = dict(kind="mll", backend=be, case=c.name, script=c.lines[: i + 1], expect=jsonable(c.expect), hint=jsonable(c.hint),
                            failure=desc, line=i)
                 if key is not None:
                     R.report(key, rep)
-                else:
+                elif unkeyed == 0:                       # one replay per case: the first line that fails
+                    unkeyed += 1
                     ck.violation(dict(rep, oracle="values written into the target / direct read of the target / clean status"))
     # ---- 4. mid-level tier 2: opening a linking file (READ, MODIFY) and reading through it never changes the linked-to
     #         file, whatever library version wrote the files (the layouts cgi_read_* upgrades in MODIFY mode)
